@@ -56,6 +56,17 @@ def handleMtcp : List String → String
           let strip := wire.length ≥ expect.length
           if !strip then s!"diff mtcp-wire shorter than frames+probes" else "ok"
     | _, _, _ => "skip parse"
+  | ["concsend", _n, sent, got, results] =>
+    -- several goroutines send over one client at the same time: on a healthy connection every Send succeeds and
+    -- the server reports exactly the bundles sent (as a multiset: the order between goroutines is not defined) —
+    -- a frame is written as a whole, nothing of another frame or a keep-alive gets inside it
+    let s := if sent == "-" then [] else sent.splitOn ","
+    let g := if got == "-" then [] else got.splitOn ","
+    if (results.splitOn ",").any (· != "ok") then s!"specfail mtcp-send-failed-on-healthy-connection-concurrent-senders results={results}"
+    else if g.any (fun x => !s.contains x) then "specfail mtcp-reported-bundle-never-sent-concurrent-senders"
+    else if s.any (fun x => s.count x != g.count x) then
+      s!"specfail mtcp-stream-differs-concurrent-senders sent={s.length} reported={g.length}"
+    else "ok"
   | ["raw", label, stream, sent, got] =>
     match parseHex stream, parseHexList sent, parseHexList got with
     | some stream, some sent, some got =>
